@@ -23,14 +23,14 @@ CFG = {
     "technique": "Coq proof (invariant over the writer's step function, induction over model lists) + vm_compute correspondence check",
     "design_ref": "DESIGN.md §4 C06, §5 entries 7, 8, 20",
     "n_quick": 220, "n_thorough": 2000,
-    "rule": "16 fixed scenes (empty, one triangle, unaligned second mesh, negative-only non-float32 coordinates, shared mesh "
+    "rule": "18 fixed scenes (empty, one triangle, unaligned second mesh, negative-only non-float32 coordinates, shared mesh "
             "pointer x material, materials equal by value / differing only in normal or occlusion texture, instances + TRS + "
-            "lights, JOINTS_0 bytes, refused alphaCutoff, 65535/65536/65537 vertices, NaN and -0, texture transform), 4 (24) "
+            "lights, JOINTS_0 bytes, refused alphaCutoff, 65535/65536/65537 vertices, NaN and -0, texture transform, LOD placements[:2] / placements / placements[2:] as views of one instance array, Position data of three meshes as prefix / window of one array with a shared index array and the same model value listed twice), 4 (24) "
             "big scenes with 65534..70001 vertices run-length encoded, and random scenes: 1-3 meshes (point/triangle, 0-12 "
             "vertices, attribute mix of Position/Normal/TexCoord/Color/Joint/Weight/custom, value modes mixed / negative only / "
             "tenths / constant / NaN,-0), 0-4 textures over 4 URIs and 0-2 samplers, 0-3 material extensions, 0-4 materials "
             "half of them by-value copies with at most one field changed, 1-6 models with repeated mesh pointers, optional "
-            "TRS, 0-3 GPU instances, 0-2 lights; each through WriteBinary and WriteText; plus a byte-for-byte GLB case for "
+            "TRS, 0-3 GPU instances, 0-2 lights; in 2/3 of the scenes slice-typed inputs are ALIASED: GPU-instance lists, attribute data and index lists become prefix / suffix / window / whole / identical views of shared backing arrays (or equal-by-value private copies), and a model value may be listed twice (the model and the oracles always get the by-value scene); each through WriteBinary and WriteText; plus a byte-for-byte GLB case for "
             "small scenes and an alignment-only case per document; distinct by description; non-trivial = at least one "
             "model with a primitive",
     "trusted": ["encoding/json reads the document back (the JSON text is not modelled); base64 by encoding/base64",
